@@ -11,7 +11,7 @@ def parse(prop):
     ap = argparse.ArgumentParser(prog=f"check {prop}")
     ap.add_argument("--tier", default=None)
     ap.add_argument("--replay", default=None)
-    ap.add_argument("--procs", type=int, default=16)
+    ap.add_argument("--procs", type=int, default=int(__import__("os").environ.get("VERIF_PROCS", "16")))
     a = ap.parse_args()
     t = a.tier or common.tier()
     rep = common.Report(prop=prop, tier=t, seed=common.seed())
